@@ -15,6 +15,7 @@ CONSTANTS
     OpComps,      \* components the operations range over
     OpKinds,      \* subset of {"spawn","despawn","mark","unmark","insert","remove","mutate","setvis","timeout"}
     SettleRounds, \* perfect-link rounds of the settle phase
+    MaxRecon,     \* budget of disconnects / server stops
     Graphs,       \* number of relation graphs the server maintains (0 unless relations are modelled)
     Emit          \* TRUE: print every settled behaviour as JSON for replay
 
@@ -30,6 +31,7 @@ ImplF18 == [ImplDesigned EXCEPT !.periodicBumpSwallow = TRUE]
 ImplF19 == [ImplDesigned EXCEPT !.ackDiscarded = TRUE]
 ImplLeak == [ImplDesigned EXCEPT !.seedLeakHidden = TRUE]
 ImplF21 == [ImplDesigned EXCEPT !.lateJoinerMissesEmpty = TRUE]
+ImplF15 == [ImplDesigned EXCEPT !.staleBuffersOnRestart = TRUE]
 ImplF9  == [ImplDesigned EXCEPT !.removalOverwrite = TRUE]
 ImplF11 == [ImplDesigned EXCEPT !.emptyMutateWithGraphs = TRUE]
 ImplF14 == [ImplDesigned EXCEPT !.whiteReAddForgetsLost = TRUE]
@@ -37,7 +39,7 @@ ImplF14 == [ImplDesigned EXCEPT !.whiteReAddForgetsLost = TRUE]
 vars == <<st, g, b, hist>>
 
 \* budgets / phase
-BInit == [ops |-> 0, ticks |-> 0, idle |-> 0, cframes |-> 0, phase |-> "run"]
+BInit == [ops |-> 0, ticks |-> 0, idle |-> 0, cframes |-> 0, recon |-> 0, phase |-> "run"]
 
 Rec(ev, args) == [ev |-> ev, args |-> args]
 
@@ -113,9 +115,30 @@ DeliverAck(c) ==
     /\ st' = DeliverAckF(st, c) /\ UNCHANGED <<g, b>> /\ Log("DeliverAck", [c |-> c])
 CliFrame(c) ==
     /\ Running /\ b.cframes < MaxCliFrames
-    /\ st.net[c].rxUpd # <<>> \/ st.net[c].rxMut # <<>>      \* an idle client frame is a stutter
+    /\ \/ st.net[c].rxUpd # <<>> \/ st.net[c].rxMut # <<>>   \* an idle client frame is a stutter ...
+       \/ (st.cli[c].lastNotDisc /\ st.cli[c].status = "Disconnected")   \* ... unless it runs the reset
     /\ st' = CliFrameF(st, c) /\ b' = [b EXCEPT !.cframes = @ + 1] /\ UNCHANGED g
     /\ Log("CliFrame", [c |-> c])
+
+(* sessions: a disconnect or a server stop may strike in any state; the client runs at least one
+   frame before it connects again *)
+Disconnect(c) ==
+    /\ Running /\ "disconnect" \in OpKinds /\ b.recon < MaxRecon /\ DisconnectEnabled(st, c)
+    /\ st' = DisconnectF(st, c) /\ b' = [b EXCEPT !.recon = @ + 1] /\ UNCHANGED g
+    /\ Log("Disconnect", [c |-> c])
+Connect(c) ==
+    /\ Running /\ ConnectEnabled(st, c) /\ ~st.cli[c].lastNotDisc
+    /\ ~st.srv.tickChanged      \* a (re)started server runs a frame before it accepts clients (tick 0 is ambiguous)
+    /\ st' = ConnectF(st, c) /\ g' = [g EXCEPT !.lastSet[c] = <<>>] /\ UNCHANGED b
+    /\ Log("Connect", [c |-> c])
+Stop ==
+    /\ Running /\ "stop" \in OpKinds /\ b.recon < MaxRecon /\ StopEnabled(st)
+    /\ st' = StopF(st) /\ g' = [g EXCEPT !.snap = <<>>, !.visAt = <<>>] /\ b' = [b EXCEPT !.recon = @ + 1]
+    /\ Log("Stop", [x |-> 0])
+Start ==
+    /\ Running /\ StartEnabled(st)
+    /\ st' = StartF(st) /\ UNCHANGED <<g, b>>
+    /\ Log("Start", [x |-> 0])
 
 (* settle phase: perfect link, as one macro step built from the same functions *)
 RECURSIVE DrainUpd(_, _), DrainMut(_, _), DrainAck(_, _)
@@ -145,7 +168,7 @@ SettleResult(s, gg) ==
         IN [st |-> s2, g |-> [p.g EXCEPT !.sentAtRest = sent]])))
 
 Settle ==
-    /\ Running
+    /\ Running /\ st.srv.running /\ ~st.srv.tickChanged
     /\ \E r \in {SettleResult(st, g)} : st' = r.st /\ g' = r.g
     /\ b' = [b EXCEPT !.phase = "settled"]
     /\ Log("Settle", [rounds |-> SettleRounds])
@@ -156,7 +179,8 @@ Next ==
     \/ \E e \in Ent, k \in OpComps : Insert(e, k) \/ Remove(e, k) \/ Mutate(e, k)
     \/ \E c \in Client, e \in Ent, v \in BOOLEAN : SetVis(c, e, v)
     \/ \E doTick \in BOOLEAN, dt \in {0, Timeout} : SrvFrame(doTick, dt)
-    \/ \E c \in Client : DeliverUpd(c) \/ DeliverAck(c) \/ CliFrame(c)
+    \/ \E c \in Client : DeliverUpd(c) \/ DeliverAck(c) \/ CliFrame(c) \/ Disconnect(c) \/ Connect(c)
+    \/ Stop \/ Start
     \/ \E c \in Client, i \in 1..2 : DeliverMut(c, i) \/ DropMut(c, i)
     \/ Settle
 
